@@ -140,4 +140,265 @@ Proof.
   f_equal. apply filter_ext. intros e. unfold path_matches, filter_ok. cbn. destruct (e_flt e); now rewrite andb_true_r.
 Qed.
 
+
+(* ------------------------------------------------------------------ the table operations *)
+
+Definition Pe (P : pat -> bool) (e : entry) : bool := P (e_pat e).
+Definition b2n (b : bool) : nat := if b then 1 else 0.
+
+Lemma entries_put_count : forall P es e,
+  length (filter (Pe P) (entries_put es e))
+  = length (filter (Pe P) es) + (match entries_get es (e_pat e) with Some _ => 0 | None => b2n (P (e_pat e)) end).
+Proof.
+  intros P. induction es as [|x es IH]; intros e; cbn [entries_put entries_get filter length].
+  - unfold Pe. destruct (P (e_pat e)); reflexivity.
+  - destruct (pat_eqb (e_pat x) (e_pat e)) eqn:E.
+    + apply pat_eqb_eq in E. cbn [filter]. unfold Pe. rewrite E. destruct (P (e_pat e)); cbn; lia.
+    + cbn [filter]. destruct (Pe P x); cbn [length]; rewrite IH; lia.
+Qed.
+
+Lemma groups_put_count : forall P gs d e,
+  length (filter (Pe P) (flat_map snd (groups_put gs d e)))
+  = length (filter (Pe P) (flat_map snd gs))
+    + (match entries_get (group_get gs d) (e_pat e) with Some _ => 0 | None => b2n (P (e_pat e)) end).
+Proof.
+  intros P. induction gs as [|[k es] gs IH]; intros d e; cbn [groups_put group_get flat_map snd].
+  - cbn. unfold Pe. destruct (P (e_pat e)); reflexivity.
+  - destruct (Nat.eqb k d) eqn:E; cbn [flat_map snd]; rewrite !filter_app, !app_length.
+    + rewrite entries_put_count. lia.
+    + rewrite IH. lia.
+Qed.
+
+Lemma entries_remove_count : forall P es p e, entries_get es p = Some e ->
+  length (filter (Pe P) (entries_remove es p)) + b2n (P p) = length (filter (Pe P) es).
+Proof.
+  intros P. induction es as [|x es IH]; intros p e H; cbn [entries_remove entries_get filter] in *; [discriminate|].
+  destruct (pat_eqb (e_pat x) p) eqn:E.
+  - apply pat_eqb_eq in E. unfold Pe at 2. rewrite E. destruct (P p); cbn; lia.
+  - cbn [filter]. destruct (Pe P x); cbn [length]; rewrite <- (IH p e H); lia.
+Qed.
+
+Lemma groups_remove_count : forall P gs d p e, entries_get (group_get gs d) p = Some e ->
+  length (filter (Pe P) (flat_map snd (groups_remove gs d p))) + b2n (P p) = length (filter (Pe P) (flat_map snd gs)).
+Proof.
+  intros P. induction gs as [|[k es] gs IH]; intros d p e H; cbn [groups_remove group_get flat_map snd] in *; [discriminate|].
+  destruct (Nat.eqb k d) eqn:E.
+  - pose proof (entries_remove_count P es p e H) as Hc.
+    destruct (entries_remove es p) as [|y ys] eqn:Er; cbn [flat_map snd]; rewrite !filter_app, !app_length.
+    + cbn in Hc. lia.
+    + rewrite <- Hc. lia.
+  - cbn [flat_map snd]. rewrite !filter_app, !app_length. rewrite <- (IH d p e H). lia.
+Qed.
+
+
+Lemma entries_get_some : forall es p e, entries_get es p = Some e -> In e es /\ e_pat e = p.
+Proof.
+  induction es as [|x es IH]; intros p e H; cbn in H; [discriminate|].
+  destruct (pat_eqb (e_pat x) p) eqn:E.
+  - inversion H; subst. apply pat_eqb_eq in E. split; [now left|auto].
+  - apply IH in H as [H1 H2]. split; [now right|auto].
+Qed.
+
+Lemma entries_get_none : forall es p, entries_get es p = None <-> forall e, In e es -> e_pat e <> p.
+Proof.
+  induction es as [|x es IH]; intros p; cbn.
+  - split; [intros _ e []|auto].
+  - destruct (pat_eqb (e_pat x) p) eqn:E.
+    + apply pat_eqb_eq in E. split; [discriminate|]. intros H. exfalso. apply (H x); auto.
+    + apply pat_eqb_neq in E. rewrite IH. split.
+      * intros H e [He|He]; [now subst|now apply H].
+      * intros H e He. apply H. now right.
+Qed.
+
+Lemma entries_put_in : forall es e x, In x (entries_put es e) -> x = e \/ In x es.
+Proof.
+  induction es as [|y es IH]; intros e x H; cbn in H.
+  - destruct H as [H|[]]; auto.
+  - destruct (pat_eqb (e_pat y) (e_pat e)).
+    + destruct H as [H|H]; [left; auto|right; now right].
+    + destruct H as [H|H]; [right; now left|]. apply IH in H as [H|H]; [now left|right; now right].
+Qed.
+
+Lemma entries_put_pats : forall es e p, In p (map e_pat (entries_put es e)) <-> p = e_pat e \/ In p (map e_pat es).
+Proof.
+  induction es as [|y es IH]; intros e p; cbn.
+  - intuition.
+  - destruct (pat_eqb (e_pat y) (e_pat e)) eqn:E; cbn.
+    + apply pat_eqb_eq in E. rewrite E. intuition.
+    + rewrite IH. intuition.
+Qed.
+
+Lemma entries_put_nodup : forall es e, NoDup (map e_pat es) -> NoDup (map e_pat (entries_put es e)).
+Proof.
+  induction es as [|y es IH]; intros e H; cbn.
+  - repeat constructor. intros [].
+  - cbn in H. inversion H as [|? ? Hy H']; subst.
+    destruct (pat_eqb (e_pat y) (e_pat e)) eqn:E; cbn.
+    + apply pat_eqb_eq in E. rewrite <- E. now constructor.
+    + constructor; auto. rewrite entries_put_pats. intros [H1|H1]; [|contradiction].
+      apply pat_eqb_neq in E. congruence.
+Qed.
+
+Lemma groups_put_keys : forall gs d e k, In k (map fst (groups_put gs d e)) <-> k = d \/ In k (map fst gs).
+Proof.
+  induction gs as [|[k0 es] gs IH]; intros d e k; cbn.
+  - intuition.
+  - destruct (Nat.eqb k0 d) eqn:E; cbn.
+    + apply Nat.eqb_eq in E. subst. intuition.
+    + rewrite IH. intuition.
+Qed.
+
+Lemma groups_put_wf : forall gs d e, wf_groups gs -> length (e_pat e) = d -> 1 <= d -> wf_groups (groups_put gs d e).
+Proof.
+  induction gs as [|[k0 es] gs IH]; intros d e [Hnd Hwf] Hl Hd; cbn.
+  - split; [repeat constructor; intros []|]. intros g [Hg|[]]. subst g.
+    split; [discriminate|split; [auto|split]]; cbn.
+    + intros x [Hx|[]]. now subst.
+    + repeat constructor. intros [].
+  - cbn in Hnd. inversion Hnd as [|? ? Hk Hnd']; subst.
+    assert (Hgs : wf_groups gs) by (split; auto; intros g Hg; apply Hwf; now right).
+    destruct (Hwf (k0, es) (or_introl eq_refl)) as [G1 [G2 [G3 G4]]]. cbn in *.
+    destruct (Nat.eqb k0 (length (e_pat e))) eqn:E.
+    + apply Nat.eqb_eq in E. split; [cbn; now constructor|].
+      intros g [Hg|Hg]; [|apply Hwf; now right]. subst g.
+      split; [|split; [auto|split]]; cbn.
+      * destruct es; cbn; [discriminate|]. destruct (pat_eqb _ _); discriminate.
+      * intros x Hx. apply entries_put_in in Hx as [Hx|Hx]; [now subst|now apply G3].
+      * now apply entries_put_nodup.
+    + destruct (IH (length (e_pat e)) e Hgs eq_refl Hd) as [Hnd2 Hwf2]. split.
+      * cbn. constructor; auto. rewrite groups_put_keys. intros [H|H]; [|contradiction].
+        apply Nat.eqb_neq in E. congruence.
+      * intros g [Hg|Hg]; [subst g; apply (Hwf (k0, es)); now left|now apply Hwf2].
+Qed.
+
+Lemma entries_remove_in : forall es p x, In x (entries_remove es p) -> In x es.
+Proof.
+  induction es as [|y es IH]; intros p x H; cbn in H; [contradiction|].
+  destruct (pat_eqb (e_pat y) p); [now right|].
+  destruct H as [H|H]; [now left|right; eauto].
+Qed.
+
+Lemma entries_remove_nodup : forall es p, NoDup (map e_pat es) -> NoDup (map e_pat (entries_remove es p)).
+Proof.
+  induction es as [|y es IH]; intros p H; cbn; auto.
+  cbn in H. inversion H as [|? ? Hy H']; subst.
+  destruct (pat_eqb (e_pat y) p); auto. cbn. constructor; auto.
+  intros Hin. apply Hy. apply in_map_iff in Hin as [x [Hx1 Hx2]]. apply entries_remove_in in Hx2.
+  rewrite <- Hx1. now apply in_map.
+Qed.
+
+Lemma groups_remove_keys : forall gs d p k, In k (map fst (groups_remove gs d p)) -> In k (map fst gs).
+Proof.
+  induction gs as [|[k0 es] gs IH]; intros d p k H; cbn in *; auto.
+  destruct (Nat.eqb k0 d).
+  - destruct (entries_remove es p); cbn in *; intuition.
+  - cbn in H. destruct H as [H|H]; [now left|right; eauto].
+Qed.
+
+Lemma groups_remove_wf : forall gs d p, wf_groups gs -> wf_groups (groups_remove gs d p).
+Proof.
+  induction gs as [|[k0 es] gs IH]; intros d p [Hnd Hwf]; cbn; [split; auto|].
+  cbn in Hnd. inversion Hnd as [|? ? Hk Hnd']; subst.
+  assert (Hgs : wf_groups gs) by (split; auto; intros g Hg; apply Hwf; now right).
+  destruct (Hwf (k0, es) (or_introl eq_refl)) as [G1 [G2 [G3 G4]]]. cbn in *.
+  destruct (Nat.eqb k0 d).
+  - destruct (entries_remove es p) as [|y ys] eqn:Er; auto.
+    split; [cbn; now constructor|].
+    intros g [Hg|Hg]; [|apply Hwf; now right]. subst g.
+    split; [discriminate|split; [auto|split]]; cbn.
+    + intros x Hx. apply G3. apply (entries_remove_in es p). now rewrite Er.
+    + pose proof (entries_remove_nodup es p G4) as H. now rewrite Er in H.
+  - destruct (IH d p Hgs) as [Hnd2 Hwf2]. split.
+    + cbn. constructor; auto. intros H. apply Hk. now apply groups_remove_keys in H.
+    + intros g [Hg|Hg]; [subst g; apply (Hwf (k0, es)); now left|now apply Hwf2].
+Qed.
+
+(* -- the matcher-level facts the server proofs use -- *)
+
+Definition pm (q : path) : pat -> bool := fun p => pat_matches p q.
+
+Lemma count_matching_put : forall m p f q, p <> [] ->
+  count_matching (m_put m p f) q
+  = count_matching m q + (match m_get m p with Some _ => 0 | None => b2n (pat_matches p q) end).
+Proof.
+  intros m p f q Hp. unfold count_matching, all_entries, m_put, m_get. destruct p as [|c p]; [congruence|].
+  cbn [m_groups]. apply (groups_put_count (pm q)).
+Qed.
+
+Lemma count_matching_set_filter : forall m p f q, count_matching (m_set_filter m p f) q = count_matching m q.
+Proof.
+  intros m p f q. unfold m_set_filter. destruct (m_get m p) as [e|] eqn:E; auto.
+  unfold count_matching, all_entries. cbn [m_groups].
+  rewrite (groups_put_count (pm q)). cbn [e_pat]. unfold m_get in E. rewrite E. lia.
+Qed.
+
+Lemma count_matching_remove : forall m p m' q, m_remove m p = Some m' ->
+  count_matching m' q + b2n (pat_matches p q) = count_matching m q.
+Proof.
+  intros m p m' q H. unfold m_remove in H. destruct (m_get m p) as [e|] eqn:E; [|discriminate].
+  inversion H; subst. unfold count_matching, all_entries. cbn [m_groups].
+  apply (groups_remove_count (pm q) _ _ _ e E).
+Qed.
+
+Lemma wf_put : forall m p f, wf_groups (m_groups m) -> wf_groups (m_groups (m_put m p f)).
+Proof.
+  intros m p f H. unfold m_put. destruct p as [|c p]; auto. cbn [m_groups].
+  apply groups_put_wf; auto. cbn. lia.
+Qed.
+
+Lemma wf_set_filter : forall m p f, wf_groups (m_groups m) -> wf_groups (m_groups (m_set_filter m p f)).
+Proof.
+  intros m p f H. unfold m_set_filter. destruct (m_get m p) as [e|] eqn:E; auto. cbn [m_groups].
+  unfold m_get in E. apply entries_get_some in E as [E1 E2].
+  apply group_get_in in E1 as [g [Hg [Hd He]]]. destruct H as [Hnd Hwf]. destruct (Hwf g Hg) as [_ [G2 [G3 _]]].
+  apply groups_put_wf; [split; auto|reflexivity|]. cbn. rewrite <- E2, (G3 e He). exact G2.
+Qed.
+
+Lemma wf_remove : forall m p m', wf_groups (m_groups m) -> m_remove m p = Some m' -> wf_groups (m_groups m').
+Proof.
+  intros m p m' H Hr. unfold m_remove in Hr. destruct (m_get m p); [|discriminate]. inversion Hr; subst.
+  cbn [m_groups]. now apply groups_remove_wf.
+Qed.
+
+Lemma num_entries_put : forall m p f, num_entries (m_put m p f) <= S (num_entries m).
+Proof.
+  intros m p f. unfold num_entries, all_entries, m_put. destruct p as [|c p]; [lia|]. cbn [m_groups].
+  pose proof (groups_put_count (fun _ => true) (m_groups m) (length (c :: p)) (mkEntry (c :: p) f)) as H.
+  rewrite !filter_true_all in H. destruct (entries_get _ _); cbn in H; lia.
+Qed.
+
+Lemma num_entries_set_filter : forall m p f, num_entries (m_set_filter m p f) = num_entries m.
+Proof.
+  intros m p f. unfold m_set_filter. destruct (m_get m p) as [e|] eqn:E; auto.
+  unfold num_entries, all_entries. cbn [m_groups].
+  pose proof (groups_put_count (fun _ => true) (m_groups m) (length p) (mkEntry p f)) as H.
+  rewrite !filter_true_all in H. cbn [e_pat] in H. unfold m_get in E. rewrite E in H. lia.
+Qed.
+
+Lemma num_entries_remove : forall m p m', m_remove m p = Some m' -> num_entries m' <= num_entries m.
+Proof.
+  intros m p m' H. unfold m_remove in H. destruct (m_get m p) as [e|] eqn:E; [|discriminate]. inversion H; subst.
+  unfold num_entries, all_entries. cbn [m_groups].
+  pose proof (groups_remove_count (fun _ => true) (m_groups m) (length p) p e E) as Hc.
+  rewrite !filter_true_all in Hc. lia.
+Qed.
+
+Lemma count_le_entries : forall m q, count_matching m q <= num_entries m.
+Proof. intros m q. unfold count_matching, num_entries. apply filter_length_le. Qed.
+
+(* the one-pattern matcher used to mark / unmark the nodes of one subscription *)
+Lemma single_wf : forall p, p <> [] -> wf_groups (m_groups (m_put empty_matcher p None)).
+Proof. intros p Hp. apply wf_put. apply wf_empty. Qed.
+
+Lemma single_matches : forall p q d, p <> [] ->
+  matches_node (m_put empty_matcher p None) q d 0 = pat_matches p q.
+Proof.
+  intros p q d Hp. unfold m_put, matches_node, path_matches. destruct p as [|c p]; [congruence|].
+  cbn [m_groups empty_matcher groups_put group_get Nat.ltb Nat.leb]. rewrite Nat.sub_0_r.
+  destruct (Nat.eqb (length (c :: p)) (length q)) eqn:E.
+  - cbn [existsb e_pat e_flt skipn]. unfold filter_ok. now rewrite orb_false_r, andb_true_r.
+  - cbn [existsb]. destruct (pat_matches (c :: p) q) eqn:Em; auto.
+    apply pat_matches_length in Em. apply Nat.eqb_neq in E. contradiction.
+Qed.
+
 End MatcherProofs.
